@@ -43,6 +43,7 @@ type Contract struct {
 	LoopDec  map[int]CExpr
 	Unroll   map[int]int
 	OnCall   []CExpr
+	OnAssign []CExpr
 	BefCall  []CExpr
 	BefRet   []CExpr
 	Assigns  []CExpr
@@ -338,9 +339,9 @@ func LoadWorld(patterns []string, extraOverlay map[string][]byte) (*World, error
 	}
 	var loadPats []string
 	for _, f := range files {
-		if len(patterns) > 0 && !want[filepath.Dir(f)] {
-			continue
-		}
+		// every contract file is parsed and overlaid (the callees of a verified function may
+		// live in other packages); only the requested packages are roots of the load
+		root := len(patterns) == 0 || want[filepath.Dir(f)]
 		var cf *ContractFile
 		if data, ok := extraOverlay[f]; ok {
 			tmp, err := os.CreateTemp("", "pvc-cf-*.go")
@@ -369,8 +370,10 @@ func LoadWorld(patterns []string, extraOverlay map[string][]byte) (*World, error
 		sigsByFile[cf] = sigs
 		overlay[filepath.Join(cf.Dir, "zz_verif_gen.go")] = []byte(src)
 		w.Files = append(w.Files, cf)
-		rel, _ := filepath.Rel(repoRoot, cf.Dir)
-		loadPats = append(loadPats, "./"+rel)
+		if root {
+			rel, _ := filepath.Rel(repoRoot, cf.Dir)
+			loadPats = append(loadPats, "./"+rel)
+		}
 	}
 	if len(loadPats) == 0 {
 		return nil, fmt.Errorf("no contract files for %v", patterns)
@@ -413,13 +416,16 @@ func LoadWorld(patterns []string, extraOverlay map[string][]byte) (*World, error
 	// resolve blocks
 	for _, cf := range w.Files {
 		var pkg *packages.Package
-		for _, p := range pkgs {
-			if len(p.GoFiles) > 0 && filepath.Dir(p.GoFiles[0]) == cf.Dir {
+		for _, p := range w.Pkgs {
+			if len(p.GoFiles) > 0 && filepath.Dir(p.GoFiles[0]) == cf.Dir && p.TypesInfo != nil {
 				pkg = p
 			}
 		}
 		if pkg == nil {
-			return nil, fmt.Errorf("no package loaded for %s", cf.Dir)
+			continue // not in the import closure of the requested packages
+		}
+		for _, e := range pkg.Errors {
+			return nil, fmt.Errorf("package %s does not type-check (contract drift or broken tree): %v", pkg.PkgPath, e)
 		}
 		for _, b := range cf.Blocks {
 			c := &Contract{Block: b, CF: cf, Pkg: pkg, LoopInv: map[int][]CExpr{}, LoopDec: map[int]CExpr{}, Unroll: map[int]int{}, Callback: map[string]*Directive{}}
@@ -716,6 +722,27 @@ func (w *World) resolve(c *Contract, si *sigInfo) error {
 			} else {
 				c.BefCall = append(c.BefCall, ce)
 			}
+		case "onassign":
+			// ghost update at every assignment whose left-hand side has the given text
+			var site ast.Node
+			ast.Inspect(c.Body, func(n ast.Node) bool {
+				if as, ok := n.(*ast.AssignStmt); ok && site == nil {
+					for _, l := range as.Lhs {
+						if exprText(w.Fset, l) == d.CallText {
+							site = as
+						}
+					}
+				}
+				return true
+			})
+			if site == nil {
+				return fmt.Errorf("%s:%d: missing: no assignment to %q in %s", b.File, d.Line, d.CallText, b.Key())
+			}
+			ce, err := w.check(c, site.End(), d, d.Expr, subst)
+			if err != nil {
+				return err
+			}
+			c.OnAssign = append(c.OnAssign, ce)
 		case "beforereturn":
 			ce, err := w.check(c, endPos, d, d.Expr, subst)
 			if err != nil {
